@@ -126,9 +126,11 @@ fn decode_string(data: &[u8], off: usize) -> Result<(usize, &str), String> {
     if off > data.len() {
         return Err(format!("string offset {} is beyond the data section ({} bytes)", off, data.len()));
     }
-    return match cao_lang::verif::decode_str(&data[off..]) {
-        Some((_, s)) => Ok((s.len(), s)),
-        None => Err(format!("no complete UTF-8 string can be decoded at offset {} (data is {} bytes)", off, data.len())),
+    return match (cao_lang::verif::decode_str(&data[off..]), cao_lang::verif::read_str(off, data)) {
+        // ... and that the interpreter's own reader of string operands gets the same text
+        (Some((_, s)), Some(r)) if s == r => Ok((s.len(), s)),
+        (Some((_, s)), r) => Err(format!("the string of {} bytes at offset {} is not what the interpreter reads there ({:?})", s.len(), off, r.map(|x| x.len()))),
+        (None, _) => Err(format!("no complete UTF-8 string can be decoded at offset {} (data is {} bytes)", off, data.len())),
     };
     #[allow(unreachable_code)]
     if off + 4 > data.len() {
